@@ -33,7 +33,8 @@ def run(chk):
                 for A in itertools.combinations(V, r):
                     ind = [e for e in E if e[0] in A and e[1] in A]
                     for k in range(0, len(ind) + 1):
-                        traces.append(P.run_ncg({"V": V, "E": E, "A": list(A), "focal": A[0], "k": k}))
+                        # different substrates may carry the same name (every 4-vertex motif of a cover can be called "4-motif")
+                        traces.append(P.run_ncg({"V": V, "E": E, "A": list(A), "focal": A[0], "k": k, "gname": "%d-motif" % n if mask % 2 else ""}))
     for i in range(4000 if thorough else 60):
         n = rng.choice([5, 6])
         V = list(range(n))
@@ -41,7 +42,8 @@ def run(chk):
         A = rng.sample(V, rng.randrange(2, n + 1))
         ind = [e for e in E if e[0] in A and e[1] in A]
         if len(ind) <= 9:
-            traces.append(P.run_ncg({"V": V, "E": E, "A": sorted(A), "focal": rng.choice(A), "k": rng.randrange(0, len(ind) + 1)}))
+            traces.append(P.run_ncg({"V": V, "E": E, "A": sorted(A), "focal": rng.choice(A), "k": rng.randrange(0, len(ind) + 1),
+                                     "gname": rng.choice(["", "motif", "0-1"])}))
     # structured substrates with narrow cuts (edge connectivity below the minimum degree): two dense blobs joined by few edges
     def blobs(a, b, bridges):
         A = list(range(a)); B = list(range(a, a + b))
